@@ -13,6 +13,10 @@ exclude, set_locales):
                    defect 1757672: _filter used to test the dictionary for truth); an ordinary
                    stream, failures are plain violations (signature literal-path-empty-dict)
   FILTER-stale     queries, then add_rules / set_locales / add_paths on some node, more queries
+  FILTER-toml      the same generator written out as l10n.toml files ([[filters]] with single
+                   paths / path lists, with and without keys, key lists, `re:` keys; [[includes]]
+                   and [[excludes]] as files of their own) in a temporary directory and loaded by
+                   TOMLParser().parse; the oracle works from the generated data
   FILTER-build     configurations whose construction raises (re.error, ExcludeError)
   COMPILE          _compile_rule expansion: path lists x (nested) key lists, probes on keys
   INFILE           Observer(filter=config.filter) driven by ContentComparer.compare on
@@ -55,6 +59,7 @@ SEV = {"error": 2, "warning": 1, "ignore": 0}
 
 # ------------------------------------------------------------------ universe ---
 ROOT = "/proj"
+ENV = {"root": ROOT}     # the TOML stream puts its configurations into a temporary directory
 LOCS = ["de", "fr", "it", "xx", None]          # File.locale; index = model's locale
 CONF_LOCS = ["de", "fr", "it"]                  # locales configurations may list
 PLOCS = ["de", "fr"]
@@ -78,8 +83,8 @@ BAD_RE = ["re:(", "re:[a", "re:*"]
 def fullpath(f):
     pl, d, n = f
     if pl is None:
-        return f"{ROOT}/{d}/{n}"
-    return f"{ROOT}/l10n/{pl}/{d}/{n}"
+        return f"{ENV['root']}/{d}/{n}"
+    return f"{ENV['root']}/l10n/{pl}/{d}/{n}"
 
 
 def shapes():
@@ -122,10 +127,10 @@ _table_cache = {}
 def real_row(text, env_l="l10n/{locale}"):
     """truth table of the real Matcher: [locale index, file index, size of the dictionary
     returned by match] for every pair on which match is not None"""
-    key = (text, env_l)
+    key = (text, env_l, ENV["root"])
     if key not in _table_cache:
         from compare_locales.paths.matcher import Matcher
-        m = Matcher(text, env={"l": env_l}, root=ROOT)
+        m = Matcher(text, env={"l": env_l}, root=ENV["root"])
         row = []
         for li, loc in enumerate(LOCS):
             if loc is None:
@@ -238,7 +243,7 @@ def rule_dicts(rules):
 def build_pc(desc, counter, registry=None, path=()):
     """mirror of TOMLParser.parse on the data of one configuration"""
     from compare_locales.paths import ProjectConfig
-    pc = ProjectConfig(f"{ROOT}/c{next(counter)}.toml")
+    pc = ProjectConfig(f"{ENV['root']}/c{next(counter)}.toml")
     pc.set_root(".")
     pc.add_environment(l="l10n/{locale}")
     for p in desc["paths"]:
@@ -301,6 +306,65 @@ def impl_session(desc, ops):
                     d["locales"] = p["locales"]
                 registry[op[1]].add_paths(d)
     return ok(out)
+
+
+# ----------------------------------------------------------------------- TOML ---
+def flatten_keys(desc):
+    """TOML arrays are homogeneous: key lists are flat in configuration files"""
+    for _, node in walk_nodes(desc):
+        for r in node["rules"]:
+            if "key" in r and not isinstance(r["key"], str):
+                r["key"] = all_keys_of(r["key"])
+    return desc
+
+
+def write_toml(desc, root, counter):
+    """the configuration data as an l10n.toml (includes and excludes as files of their own);
+    returns the file name"""
+    import toml
+    name = os.path.join(root, f"c{next(counter)}.toml")
+    data = {"basepath": "."}
+    if desc["locales"] is not None:
+        data["locales"] = list(desc["locales"])
+    data["env"] = {"l": "l10n/{locale}"}
+    data["paths"] = []
+    for p in desc["paths"]:
+        d = {"l10n": p["l10n"]}
+        if p["locales"] is not None:
+            d["locales"] = list(p["locales"])
+        data["paths"].append(d)
+    data["filters"] = [copy.deepcopy(r) for r in desc["rules"]]
+    data["includes"] = [{"path": os.path.basename(write_toml(ch, root, counter))}
+                        for ch in desc["children"]]
+    data["excludes"] = [{"path": os.path.basename(write_toml(ex, root, counter))}
+                        for ex in desc["excludes"]]
+    for k in ("paths", "filters", "includes", "excludes"):
+        if not data[k]:
+            del data[k]
+    with open(name, "w") as fh:
+        fh.write(toml.dumps(data))
+    return name
+
+
+_toml_counter = itertools.count()
+
+
+def toml_session(desc, ops):
+    """like impl_session, but the configuration is loaded by TOMLParser from files written
+    into ENV['root'] (basepath "." makes that directory the root)"""
+    from compare_locales.paths import TOMLParser
+    name = write_toml(desc, ENV["root"], _toml_counter)
+    try:
+        pc = TOMLParser().parse(name, env={})
+    except (re.error, ValueError) as e:
+        return raised(exc_tag(e))
+    out = []
+    for _, li, fi, key in ops:
+        out.append(s2l(pc.filter(mkfile(fi, li), entity=key) if key is not None
+                       else pc.filter(mkfile(fi, li))))
+    return ok(out)
+
+
 
 
 # ------------------------------------------------------------------- encoding ---
@@ -471,13 +535,14 @@ def check_tables(chk, desc, ops=()):
                      {"real": real_row(t), "expected": expected_row(t)})
 
 
-def run_filter_stream(chk, model, name, descs, nq, oracle_on=True, finding_stream=False):
+def run_filter_stream(chk, model, name, descs, nq, oracle_on=True, finding_stream=False,
+                      session=None):
     rng = chk.rng
     cases, impl, reqs, reqs_spec = [], [], [], []
     for desc in descs:
         check_tables(chk, desc)
         ops = gen_queries(rng, nq)
-        out = impl_session(desc, ops)
+        out = (session or impl_session)(desc, ops)
         cases.append({"config": desc, "ops": ops})
         impl.append(out)
         rt = retable(desc)
@@ -497,7 +562,8 @@ def run_filter_stream(chk, model, name, descs, nq, oracle_on=True, finding_strea
             if got != exp:
                 # the queries asked before this one on the same object (cache state)
                 case = {"config": desc, "locale": LOCS[li], "file": fullpath(FILES[fi]),
-                        "key": key, "li": li, "fi": fi, "asked_before": [list(o) for o in ops[:qi]]}
+                        "key": key, "li": li, "fi": fi, "suite": name,
+                        "asked_before": [list(o) for o in ops[:qi]]}
                 if literal_hit(desc, li, fi):
                     chk.fail("literal-path-empty-dict", case, {"got": got, "expected": exp})
                 elif exclude_nonerror(desc, li, fi):
@@ -800,6 +866,17 @@ D10_WITNESS = {
                   "children": [], "excludes": []}]}
 
 
+# a file-level filter whose `path` lists several patterns: each of them is filtered
+TOML_WITNESS = {
+    "locales": ["de", "fr"], "paths": [{"l10n": "l10n/{locale}/**", "locales": None}],
+    "rules": [{"path": ["{l}/a/*", "{l}/c/*", "{l}/a/d/*"], "action": "ignore"},
+              {"path": ["{l}/a/*", "{l}/c/*"], "action": "warning", "key": ["k1", "re:k2.*"]}],
+    "children": [{"locales": None, "paths": [{"l10n": "{l}/c/**", "locales": None}],
+                  "rules": [{"path": ["l10n/*/c/b.ftl", "l10n/*/c/e.properties"], "action": "ignore"}],
+                  "children": [], "excludes": []}],
+    "excludes": []}
+
+
 LITERAL_WITNESS = {
     "locales": ["de"], "paths": [{"l10n": "l10n/{locale}/**", "locales": None}],
     "rules": [{"path": "l10n/de/a/b.ftl", "action": "ignore"}], "children": [], "excludes": []}
@@ -844,6 +921,15 @@ def run(chk, runner_ok):
                                              "locale": "de", "file": fullpath(FILES[0])},
                  {"got": out, "expected": "ignore"})
     run_filter_stream(chk, model, "FILTER-literal", descs, nq)
+    # ---- configurations loaded from l10n.toml files by TOMLParser ----------------------
+    with tempfile.TemporaryDirectory(prefix="c14toml_") as tmp:
+        ENV["root"] = os.path.realpath(tmp)
+        try:
+            descs = [flatten_keys(copy.deepcopy(TOML_WITNESS))] + \
+                    [flatten_keys(gen_config(rng)) for _ in range(chk.n(300, 2000))]
+            run_filter_stream(chk, model, "FILTER-toml", descs, chk.n(40, 60), session=toml_session)
+        finally:
+            ENV["root"] = ROOT
     # ---- construction that raises ---------------------------------------
     descs = []
     for _ in range(chk.n(80, 600)):
@@ -966,7 +1052,15 @@ def replay(chk, path):
         c = f["case"]
         if "config" in c and "li" in c:
             before = [tuple(o) for o in c.get("asked_before", [])]
-            out = impl_session(c["config"], before + [(0, c["li"], c["fi"], c["key"])])
+            if c.get("suite", "").startswith("FILTER-toml"):
+                with tempfile.TemporaryDirectory(prefix="c14toml_") as tmp:
+                    ENV["root"] = os.path.realpath(tmp)
+                    try:
+                        out = toml_session(c["config"], before + [(0, c["li"], c["fi"], c["key"])])
+                    finally:
+                        ENV["root"] = ROOT
+            else:
+                out = impl_session(c["config"], before + [(0, c["li"], c["fi"], c["key"])])
             got = common.l2s(out[1][-1]) if out[0] == 0 else out
             exp = oracle(c["config"], c["li"], c["fi"], c["key"])
             print("signature", f["signature"], "query", c["locale"], c["file"], repr(c["key"]),
